@@ -835,6 +835,90 @@ func memCases(o *hx.Out, r *hx.Rng) {
 	}
 }
 
+
+// ---------------------------------------------------------------- caller buffers reused between calls:
+// the state of a CFB8 value after a call is (iv, ivPos) only - it must not keep a reference into the
+// caller's dst or src.  (a) after every call the harness scribbles over that call's src and dst buffers;
+// (b) ONE scratch destination and ONE read buffer serve every call of the history, refilled each time.
+// Predicate: the concatenated outputs are the byte-at-a-time reference image of the concatenated inputs.
+func reuseSeq(o *hx.Out, r *hx.Rng, b cipher.Block, what string, bs int) {
+	iv := r.Bytes(bs)
+	de := r.Bool()
+	mode := r.Intn(3) // 0 scribble over separate buffers, 1 one scratch dst + one read buffer, 2 in place in one reused buffer
+	n := 2 + r.Intn(6)
+	var lens []int
+	for i := 0; i < n; i++ {
+		switch r.Intn(5) {
+		case 0:
+			lens = append(lens, 1+r.Intn(2*bs))
+		case 1:
+			lens = append(lens, 2*bs+1+r.Intn(3))
+		default:
+			lens = append(lens, 2*bs+1+r.Intn(6*bs))
+		}
+	}
+	s := newStream(b, iv, de)
+	var in, got []byte
+	scratch := make([]byte, 10*bs+16)
+	rbuf := make([]byte, 10*bs+16)
+	panicked := ""
+	for _, l := range lens {
+		chunk := r.Bytes(l)
+		in = append(in, chunk...)
+		var dst, src []byte
+		switch mode {
+		case 0:
+			src = append([]byte(nil), chunk...)
+			dst = make([]byte, l+r.Pick(0, 0, 3, bs))
+		case 1:
+			src = rbuf[:l]
+			copy(src, chunk)
+			dst = scratch[:l+r.Pick(0, 0, 5)]
+		default:
+			src = rbuf[:l]
+			copy(src, chunk)
+			dst = src
+		}
+		if p := hx.Try(func() { s.XORKeyStream(dst, src) }); p != "" {
+			panicked = p
+			break
+		}
+		got = append(got, dst[:l]...)
+		// the caller is done with both buffers: it may do anything with them
+		for j := range dst {
+			dst[j] = byte(r.Next())
+		}
+		for j := range src {
+			src[j] = byte(r.Next())
+		}
+	}
+	desc := fmt.Sprintf("reuse %s bs=%d de=%v mode=%d lens=%v", what, bs, de, mode, lens)
+	o.Eval("reuse."+what, true, desc)
+	if panicked != "" {
+		o.Fail("C10.stream.buffer-reuse", "%s: panic %q", desc, panicked)
+		return
+	}
+	if want := refCFBn(b, iv, de, in); !bytes.Equal(got, want) {
+		k := 0
+		for k < len(got) && got[k] == want[k] {
+			k++
+		}
+		o.Fail("C10.stream.buffer-reuse", "%s: output differs from the reference at byte %d of %d (the stream kept a reference into a caller buffer)", desc, k, len(want))
+	}
+}
+
+func reuseCases(o *hx.Out, r *hx.Rng) {
+	for i := 0; i < o.N(240, 10); i++ {
+		key := r.Bytes(r.Pick(16, 24, 32))
+		blk, _ := aes.NewCipher(key)
+		reuseSeq(o, r, blk, fmt.Sprintf("aes%d", len(key)*8), 16)
+	}
+	for i := 0; i < o.N(120, 10); i++ {
+		bs := r.Pick(8, 16)
+		reuseSeq(o, r, toyBlockN{byte(r.Next()), bs, false}, "toy", bs)
+	}
+}
+
 // ---------------------------------------------------------------- main
 
 func main() {
@@ -964,5 +1048,6 @@ func main() {
 		}
 	}
 	memCases(o, r)
+	reuseCases(o, r)
 	o.Note("partially overlapping dst/src (excluded by the cipher.Stream contract): generated for the model-vs-implementation comparison only (kind mem), no predicate")
 }
